@@ -199,7 +199,14 @@ class key_encoder {
   /// (since we must use the same stride to encode the pad run length). If this
   /// is changed to `std::uint32`, then you can encode longer text fields, but
   /// the padding overhead will be \c 5 bytes (vs \c 3 bytes today).
+#ifdef UNODB_DETAIL_VERIF_TEXT_SIZE_TYPE
+  // Verification hook (off by default): lets bounded checkers instantiate the
+  // text encoding with a narrower run-length type so that the truncation
+  // boundary (maxlen) is within reach of loop unwinding.
+  using size_type = UNODB_DETAIL_VERIF_TEXT_SIZE_TYPE;
+#else
   using size_type = std::uint16_t;
+#endif
 
   /// The pad byte used when encoding variable length text into a key to
   /// logically extend the text field to unodb::key_encoder::maxlen bytes. The
